@@ -209,3 +209,37 @@ func TestExploreAllSmall(t *testing.T) {
 	}
 	t.Logf("executions=%d pruned=%d states=%d outcomes=%s", st.Execs, st.Pruned, st.StatesSeen, keys(st.Distinct))
 }
+
+// sync.WaitGroup's contract: a positive Add at counter zero must happen after all previous Wait calls have returned.
+func TestWaitGroupReuseBeforeWaitReturned(t *testing.T) {
+	got, _ := outcomes(t, 2, func(log func(string)) {
+		var wg mcrt.WaitGroup
+		wg.Add(1)
+		mcrt.Go("worker", func() { wg.Done() })
+		mcrt.Go("late-adder", func() { wg.Add(1); wg.Done() }) // nothing orders this Add after the Wait below
+		wg.Wait()
+		log("waited")
+	})
+	panics := false
+	for k := range got {
+		if strings.Contains(k, "PANIC") {
+			panics = true
+		}
+	}
+	if !panics || got["waited"] == 0 {
+		t.Fatalf("want both a clean run and a run reporting the reuse, got %s", keys(got))
+	}
+	// correct reuse: the second round starts after Wait returned
+	got, _ = outcomes(t, 2, func(log func(string)) {
+		var wg mcrt.WaitGroup
+		for round := 0; round < 2; round++ {
+			wg.Add(1)
+			mcrt.Go("worker", func() { wg.Done() })
+			wg.Wait()
+		}
+		log("waited")
+	})
+	if keys(got) != "waited" {
+		t.Fatalf("correct reuse: got %s", keys(got))
+	}
+}
